@@ -410,3 +410,64 @@ func c04ScriptedUpload(e *Env) {
 		}
 	}
 }
+
+// c04HugeUpload: an upload of more than 4096 blocks (block numbers that need a 3-byte Block1 option), sent block
+// by block by a scripted client to a real endpoint. No faults: the point is the size of the numbers.
+func c04HugeUpload(e *Env) {
+	t := e.Tape
+	tr := []string{TrUDP, TrTCP}[t.Choose(2)]
+	const bs = 16
+	var got [][]byte
+	router := mux.NewRouter()
+	router.DefaultHandle(mux.HandlerFunc(func(rw mux.ResponseWriter, r *mux.Message) {
+		var body []byte
+		if r.Body() != nil {
+			body, _ = r.ReadBody()
+		}
+		e.mu.Lock()
+		got = append(got, append([]byte(nil), body...))
+		e.mu.Unlock()
+		e.Notef("handler got a %d byte body", len(body))
+		_ = rw.SetResponse(codes.Changed, message.TextPlain, bytes.NewReader([]byte("ok")))
+	}))
+	w := c04World(e, tr, blockwise.SZX16, router)
+	if w == nil {
+		return
+	}
+	nBlocks := 4097 + t.Choose(4)
+	body := Body(900, nBlocks*bs-t.Choose(bs))
+	e.Logf("cfg transport=%s blocks=%d bytes=%d", tr, nBlocks, len(body))
+	e.NonTrivial()
+	e.Probe("upload.blockNumberNeedsThreeBytes")
+	tok := []byte{0x5a, 0x01}
+	for num := 0; num < nBlocks; num++ {
+		lo, hi := num*bs, min((num+1)*bs, len(body))
+		m := &WMsg{Type: TCON, Code: 2, MID: uint16(3000 + num), Token: tok, Opts: []WOpt{{Num: OptURIPath, Val: []byte("up")}, {Num: OptContentFormat, Val: []byte{42}},
+			UintOpt(OptBlock1, BlockOpt(uint32(num), hi < len(body), 0))}, Payload: body[lo:hi]}
+		it := w.Queue(m, "block")
+		w.Emit(it, false)
+		if num%64 == 63 || num == nBlocks-1 {
+			e.Wait()
+			w.Pump()
+		}
+	}
+	e.Wait()
+	w.Pump()
+	e.mu.Lock()
+	got = append([][]byte(nil), got...)
+	e.mu.Unlock()
+	switch {
+	case len(got) == 0:
+		e.Probe("transfer.failed")
+	case len(got) > 1:
+		e.Violate("C04.R2", "body-handed-over-twice:huge-upload", "the handler ran %d times for one upload of %d blocks (body sizes %d, %d ...)", len(got), nBlocks, len(got[0]), len(got[1]))
+	case !bytes.Equal(got[0], body):
+		sig := "body-is-a-mixture"
+		if len(got[0]) < len(body) {
+			sig = "partial-body-presented-as-complete"
+		}
+		e.Violate("C04.R1", sig+":huge-upload", "the handler got %d bytes, the client sent %d bytes in %d blocks", len(got[0]), len(body), nBlocks)
+	default:
+		e.Probe("transfer.completed")
+	}
+}
